@@ -29,4 +29,5 @@ Extraction "model.ml"
                     cg_free_index cg_node_count cg_set_node_count cr_load cr_store cr_create
                     ce_dbvalue ce_pair ce_dbkv
   (* StoredDb *) load_db sd_load sd_step
-  (* LoadOutcome *) load_outcome load_outcome_g lo_open_class lo_phase lo_limit lo_run.
+  (* LoadOutcome *) load_outcome load_outcome_g lo_open_class lo_phase lo_limit lo_run
+  (* StoredDbOps *) so_open so_q_insert_node so_q_insert_values so_q_insert_edge so_q_remove.
